@@ -152,6 +152,13 @@ Proof.
       * cbn [nth_error]. exact Hcase.
 Qed.
 
+Lemma encode_is_marshal : forall segs, count_ok segs -> segs_ok segs ->
+  marshal segs = Ok (frame segs) /\ encode true segs = Ok (frame segs).
+Proof.
+  intros segs Hc Hs. split; [now apply marshal_frame|].
+  apply encode_frame; [unfold count_ok, two32 in *; lia|assumption].
+Qed.
+
 (* non-vacuity of the stream theorems *)
 Ltac zle := vm_compute; intros; discriminate.
 Ltac segok := split; [vm_compute; reflexivity | zle].
